@@ -217,7 +217,9 @@ class Terminal(Service, discriminator="terminal"):
             remote_connection = self._get_connection_from_ip(ip_address=ip_address)
             if remote_connection:
                 remote_connection.execute(command)
-                return self.last_response if not None else RequestResponse(status="failure", data={})
+                if self.last_response is not None:
+                    return self.last_response
+                return RequestResponse(status="failure", data={"reason": "No response to the remote command."})
             return RequestResponse(
                 status="failure",
                 data={"reason": "Failed to execute command."},
